@@ -545,9 +545,17 @@ def gen_matrix_body(draw, env):
     for _ in range(rint(draw, 0, env.prof['matrix_stages'])):
         kind = pick(draw,
                     ['stage', 'stage', 'stage', 'setreg', 'assign', 'loop',
-                     'if', 'default', 'lightloop', 'units'])
+                     'if', 'default', 'lightloop', 'units', 'other'])
         if kind == 'stage':
             body += gen_stage(draw, env)
+        elif kind == 'other':
+            # a command that names another light (fetch its colour, switch
+            # it): the block still belongs to the light it was opened for
+            if flip(draw):
+                body += gen_get(draw, env)
+            else:
+                body.append(['action', pick(draw, ['on', 'off']),
+                             [['light', light_name(draw, env)]]])
         elif kind == 'units':
             # cells staged so far keep the colour they were staged with
             body += gen_units(draw, env)
